@@ -567,6 +567,42 @@ pub fn c11_drop_orders(res: &mut WorkerResult) -> Vec<(String, String, Value)> {
     out
 }
 
+/// Async mode: the handle is dropped while background syncs are still pending (delayed by the shim); the directory must be
+/// free at once - no live handle exists any more.
+pub fn c11_async_reopen(res: &mut WorkerResult) -> Vec<(String, String, Value)> {
+    let mut out = Vec::new();
+    let dir = util::fresh_dir("asyncdrop");
+    let conf = Cfg { n: 10_000, async_mode: true }.config();
+    shim::arm(&dir, Arc::new(|_, _| 0));
+    shim::BACKGROUND_SYNC_DELAY_MS.store(40, std::sync::atomic::Ordering::Relaxed);
+    for round in 0..3 {
+        res.count("executions", 1);
+        res.count("transitions", 4);
+        shim::participate(true);
+        let r = (|| -> Result<(), String> {
+            let cas = real::open_cas::<K>(&dir, &conf)?;
+            real::put_chunks(&cas, format!("k{round}"), &[crate::keys::content(crate::keys::C_L)], true)?;
+            real::put_chunks(&cas, format!("j{round}"), &[b"tail"], true)?;
+            drop(cas);
+            // immediately: every handle is gone, so the open must be granted
+            let again = real::open_cas::<K>(&dir, &Cfg { n: 10_000, async_mode: round % 2 == 0 }.config()).map_err(|e| format!("reopen right after dropping the only handle (Async mode, syncs still pending) failed: {e}"))?;
+            drop(again);
+            Ok(())
+        })();
+        shim::participate(false);
+        if let Err(e) = r {
+            out.push(("reopen-after-drop-async".to_string(), e, json!({"engine": "open", "kind": "async-reopen"})));
+            break;
+        }
+        std::thread::sleep(Duration::from_millis(150));
+    }
+    shim::BACKGROUND_SYNC_DELAY_MS.store(0, std::sync::atomic::Ordering::Relaxed);
+    shim::disarm();
+    std::thread::sleep(Duration::from_millis(120));
+    util::rm_rf(&dir);
+    out
+}
+
 fn stores() -> Vec<(&'static str, u64, Option<Vec<Op>>)> {
     use crate::keys::*;
     let put = |k, c| Op::Put { k, c, ch: 0 };
@@ -672,8 +708,13 @@ pub fn run(tier: &str, slice: (u64, u64), _seed: u64, prop: &str) -> WorkerResul
                 push(&mut res, "C11", o, d, c);
             }
         }
+        if mine(&mut j) {
+            for (o, d, c) in c11_async_reopen(&mut res) {
+                push(&mut res, "C11", o, d, c);
+            }
+        }
         if slice.0 == 0 {
-            res.completed.push(format!("C11: 2 racing opens (<= {} preemptions) and 3 racing opens (<= {}) from threads with every filesystem call as a scheduling point, on 3 kinds of store; a second process's open at every filesystem call of the owner's open (real flock across processes), then owner killed; all 6 drop orders of handle/clone/OrphanStats", if tier == "quick" { 2 } else { 3 }, if tier == "quick" { 1 } else { 2 }));
+            res.completed.push(format!("C11: 2 racing opens (<= {} preemptions) and 3 racing opens (<= {}) from threads with every filesystem call as a scheduling point, on 3 kinds of store; a second process's open at every filesystem call of the owner's open (real flock across processes), then owner killed; all 6 drop orders of handle/clone/OrphanStats; Async handle dropped with background syncs still pending (delayed by the shim), then reopened at once", if tier == "quick" { 2 } else { 3 }, if tier == "quick" { 1 } else { 2 }));
         }
     }
     if res.samples.is_empty() {
@@ -702,6 +743,11 @@ pub fn replay(case: &Value) -> Vec<Violation> {
         "c19-precreate" => {
             for (o, d) in c19_precreate(&mut res) {
                 out.push(Violation::new(&["C19"], &o, d));
+            }
+        }
+        "async-reopen" => {
+            for (o, d, _) in c11_async_reopen(&mut res) {
+                out.push(Violation::new(&["C11"], &o, d));
             }
         }
         "drop-orders" => {
